@@ -14,7 +14,7 @@ def rules_table():
 
 
 def seeds_table():
-    out = ['| seeded change (independent author) | property | what it needs to manifest | caught by |', '|---|---|---|---|']
+    out = ['| seeded change (independent author) | property | what it needs to manifest | caught by | by a rule that existed before the seed arrived |', '|---|---|---|---|---|']
     for mp in sorted(glob.glob(os.path.join(V, 'seeded', '*', 'meta.json'))):
         m = json.load(open(mp))
         det = m.get('detected_by')
@@ -23,7 +23,7 @@ def seeds_table():
         else:
             c = '**not caught** — ' + (m.get('missed_because') or 'no structural clause covers it')
         needs = (m.get('needs') or '').replace('|', '/')
-        out.append('| %s: %s | %s | %s | %s |' % (os.path.basename(os.path.dirname(mp)), (m.get('title') or '').replace('|', '/'), m.get('property'), needs[:260], c))
+        out.append('| %s: %s | %s | %s | %s | %s |' % (os.path.basename(os.path.dirname(mp)), (m.get('title') or '').replace('|', '/'), m.get('property'), needs[:260], c, 'yes' if m.get('first_shot') else 'no'))
     return '\n'.join(out)
 
 
